@@ -9,7 +9,8 @@
 // under strace to record the syscall order on nsqd.dat*.  After every kill the file is
 // read and the daemon restarted.  Also: crafted nsqd.dat files (invalid names, duplicates,
 // truncations, garbage) fed to start-up; write faults; forced schedules (NSQ_VERIF_WAIT: the
-// K8 mix, a channel deletion under a stale in-flight persist); and the data-path lock: a
+// K8 mix, a channel deletion under a stale in-flight persist, creations and pause flips whose
+// own write meets a busy NSQD lock - see forcedPair); and the data-path lock: a
 // second daemon started at every phase of the first one's life (boot, serving, persisting,
 // two points of its graceful exit, exited, killed).
 package main
@@ -494,9 +495,11 @@ func (s *sampler) finish() { close(s.stop); <-s.done }
 
 // ---------------------------------------------------------------- strace projection
 var (
-	reLine  = regexp.MustCompile(`^\d+\s+([a-z0-9_]+)\((.*)$`)
-	reTmp   = regexp.MustCompile(`nsqd\.dat\.(\d+)\.tmp`)
-	reFdArg = regexp.MustCompile(`^\d+<([^>]*)>`)
+	reLine    = regexp.MustCompile(`^\d+\s+([a-z0-9_]+)\((.*)$`)
+	reTmp     = regexp.MustCompile(`nsqd\.dat\.(\d+)\.tmp`)
+	reFdArg   = regexp.MustCompile(`^\d+<([^>]*)>`)
+	reResult  = regexp.MustCompile(`\)\s+= `)
+	reResumed = regexp.MustCompile(`^(\d+)\s+<\.\.\. [a-z0-9_]+ resumed>(.*)$`)
 )
 
 // parseStrace projects the trace on nsqd.dat and its temp files.
@@ -523,16 +526,50 @@ func parseStrace(path string) ([]string, map[string]int) {
 	add := func(s string) { out = append(out, s); counts[strings.Fields(s)[0]]++ }
 	sc := bufio.NewScanner(f)
 	sc.Buffer(make([]byte, 1<<16), 1<<22)
+	// "pid call(args <unfinished ...>" ... "pid <... call resumed>rest": judged as one line once the
+	// result is known (a call the kill left unfinished is taken as begun, as before)
+	pending := map[string]string{}
+	var lines []string
 	for sc.Scan() {
 		line := sc.Text()
+		if m := reResumed.FindStringSubmatch(line); m != nil {
+			if head, ok := pending[m[1]]; ok {
+				delete(pending, m[1])
+				lines = append(lines, head+reResult.ReplaceAllString(m[2], ") = "))
+			}
+			continue
+		}
 		if !strings.Contains(line, "nsqd.dat") {
 			continue
 		}
+		if i := strings.Index(line, " <unfinished ...>"); i >= 0 {
+			if f := strings.Fields(line); len(f) > 0 {
+				if old, ok := pending[f[0]]; ok {
+					lines = append(lines, old)
+				}
+				pending[f[0]] = line[:i]
+				continue
+			}
+		}
+		lines = append(lines, line)
+	}
+	var left []string
+	for pid := range pending {
+		left = append(left, pid)
+	}
+	sort.Strings(left)
+	for _, pid := range left {
+		lines = append(lines, pending[pid])
+	}
+	for _, line := range lines {
 		m := reLine.FindStringSubmatch(line)
 		if m == nil {
-			continue // "<... resumed>" lines etc.
+			continue
 		}
 		call, rest := m[1], m[2]
+		if strings.Contains(rest, ") = ? ERESTART") {
+			continue // interrupted before it did anything; the kernel restarts it and strace shows it again
+		}
 		failed := strings.Contains(rest, ") = -1 ")
 		switch call {
 		case "openat", "open", "creat":
@@ -648,6 +685,7 @@ type runStats struct {
 }
 
 var gstats = runStats{syscalls: map[string]int{}}
+var nWaitExpired int64
 
 func runChurn(bin, scratch string, sc Scenario) (lib.Case, error) {
 	dir, err := os.MkdirTemp(scratch, "meta-")
@@ -709,7 +747,9 @@ func runChurn(bin, scratch string, sc Scenario) (lib.Case, error) {
 				}()
 			}
 			dead := false
+			slowest := time.Duration(0)
 			for _, o := range cy.Ops {
+				opStart := time.Now()
 				if o.Kind == "idle" {
 					rn, ok := d.waitIdle()
 					if !ok {
@@ -778,6 +818,14 @@ func runChurn(bin, scratch string, sc Scenario) (lib.Case, error) {
 					break
 				}
 				hops = append(hops, fmt.Sprintf("HOp %s %d (Some %s)", opCoq(o), st, coqDoc(v)))
+				if el := time.Since(opStart); el > slowest {
+					slowest = el
+				}
+			}
+			if cy.Wait != "" && slowest > 8*time.Second {
+				// a wait of the forced schedule ran into the hook's 10 s cap: the schedule was not the planned one (still a legal run)
+				tags = append(tags, "forced-schedule-wait-expired")
+				atomic.AddInt64(&nWaitExpired, 1)
 			}
 			if !dead {
 				switch cy.Kill.Mode {
@@ -1464,6 +1512,398 @@ func genFault(r *lib.Rand, k int) Scenario {
 	return sc
 }
 
+// ---------------------------------------------------------------- forced schedules: a change whose own persist meets a busy NSQD lock
+// The family "request V's own metadata write reaches the NSQD lock while a holder H is past its
+// snapshot, and that snapshot was taken BEFORE V's change":
+//
+//	H = the Notify goroutine(s) of an earlier request of the same sequential client (topic / channel
+//	    creation, channel / topic deletion), parked at notify:before-send until V has passed its lookups
+//	    (the lookups take the NSQD read lock and could not get past a holder);
+//	V = a channel creation (parked in Topic.GetChannel before the topic lock) or a topic / channel
+//	    pause / unpause (parked in doPause before the flag store) until H has written its temp file;
+//	H stays at persist:after-tmp-write / after-fsync / after-rename -- holding the lock -- until V's own write is at the
+//	    lock (lookupLoop has received V's Notify event / the pause handler is at pause:before-lock).
+//
+// V's write has to queue behind H and repair the file.  A second template has a holder that is not
+// writing at all: GetTopic creating an EPHEMERAL topic, parked inside the NSQD lock (notify:spawn runs
+// there) until the Notify goroutine of an earlier creation is at the lock; nobody else will ever write
+// that creation.  All counters are hit counts since the daemon's start, computed by the generator
+// (fctr): every request before the forced pair is followed by an exact idle point.
+type fctr struct{ persist, spawn, getch, flip, plock int }
+
+type ftopic struct {
+	paused bool
+	chans  map[string]bool // name -> paused
+}
+type fstate struct {
+	topics map[string]*ftopic
+	c      fctr
+}
+
+func (f *fstate) names() []string {
+	var out []string
+	for t := range f.topics {
+		out = append(out, t)
+	}
+	sort.Strings(out)
+	return out
+}
+func (f *fstate) chanNames(t string, ephToo bool) []string {
+	var out []string
+	for c := range f.topics[t].chans {
+		if ephToo || !isEph(c) {
+			out = append(out, c)
+		}
+	}
+	sort.Strings(out)
+	return out
+}
+
+// apply: the settled effect of one VALID request on the state and on the hit counters
+func (f *fstate) apply(o Op) {
+	switch o.Kind {
+	case "ct":
+		f.topics[o.Topic] = &ftopic{chans: map[string]bool{}}
+		f.c.spawn++
+		if !isEph(o.Topic) {
+			f.c.persist++
+		}
+	case "cc":
+		f.topics[o.Topic].chans[o.Channel] = false
+		f.c.getch++
+		f.c.spawn++
+		if !isEph(o.Channel) {
+			f.c.persist++
+		}
+	case "pt", "ut":
+		f.topics[o.Topic].paused = o.Kind == "pt"
+		f.c.flip++
+		f.c.plock++
+		f.c.persist++
+	case "pc", "uc":
+		f.topics[o.Topic].chans[o.Channel] = o.Kind == "pc"
+		f.c.flip++
+		f.c.plock++
+		f.c.persist++
+	case "dc":
+		delete(f.topics[o.Topic].chans, o.Channel)
+		f.c.spawn++
+		if !isEph(o.Channel) {
+			f.c.persist += 2 // its Notify goroutine and persistAfterDelete
+		}
+	case "dt":
+		f.c.spawn++
+		f.c.persist += 2
+		for c := range f.topics[o.Topic].chans {
+			f.c.spawn++
+			if !isEph(c) {
+				f.c.persist++
+			}
+		}
+		delete(f.topics, o.Topic)
+	}
+}
+
+// restart: what LoadMetadata + the start-up persist do to the counters (ephemeral channels are gone)
+func (f *fstate) restart() {
+	f.c = fctr{persist: 1}
+	for _, t := range f.topics {
+		f.c.spawn++
+		if t.paused {
+			f.c.flip++
+		}
+		for c, p := range t.chans {
+			if isEph(c) {
+				delete(t.chans, c)
+				continue
+			}
+			f.c.getch++
+			f.c.spawn++
+			if p {
+				f.c.flip++
+			}
+		}
+	}
+}
+
+var (
+	forcedTopics = []string{"t0", "a", "b", "x.y-z_0", "t1", "topic_with_a_rather_long_name"}
+	forcedChans  = []string{"c", "c1", "c2", "d", "channel_with_a_rather_long_name"}
+)
+
+func (f *fstate) freshTopic(r *lib.Rand) string {
+	var free []string
+	for _, t := range forcedTopics {
+		if f.topics[t] == nil {
+			free = append(free, t)
+		}
+	}
+	if len(free) == 0 {
+		return ""
+	}
+	return free[r.Intn(len(free))]
+}
+func (f *fstate) freshChan(r *lib.Rand, t string) string {
+	var free []string
+	for _, c := range forcedChans {
+		if _, ok := f.topics[t].chans[c]; !ok {
+			free = append(free, c)
+		}
+	}
+	if len(free) == 0 {
+		return ""
+	}
+	return free[r.Intn(len(free))]
+}
+
+// prefixOp: one valid request on the current state (creations 50%, pause flips 30%, deletions 20%)
+func (f *fstate) prefixOp(r *lib.Rand) (Op, bool) {
+	ts := f.names()
+	t := ts[r.Intn(len(ts))]
+	switch x := r.Intn(100); {
+	case x < 15:
+		if n := f.freshTopic(r); n != "" {
+			return Op{Kind: "ct", Topic: n}, true
+		}
+	case x < 50:
+		c := f.freshChan(r, t)
+		if r.Chance(15) {
+			if _, ok := f.topics[t].chans["ce#ephemeral"]; !ok {
+				c = "ce#ephemeral"
+			}
+		}
+		if c != "" {
+			return Op{Kind: "cc", Topic: t, Channel: c}, true
+		}
+	case x < 65:
+		return Op{Kind: []string{"pt", "ut"}[r.Intn(2)], Topic: t}, true
+	case x < 80:
+		if cs := f.chanNames(t, true); len(cs) > 0 {
+			return Op{Kind: []string{"pc", "uc"}[r.Intn(2)], Topic: t, Channel: cs[r.Intn(len(cs))]}, true
+		}
+	case x < 92:
+		if cs := f.chanNames(t, true); len(cs) > 0 {
+			return Op{Kind: "dc", Topic: t, Channel: cs[r.Intn(len(cs))]}, true
+		}
+	default:
+		if len(ts) > 1 {
+			return Op{Kind: "dt", Topic: t}, true
+		}
+	}
+	return Op{}, false
+}
+
+// forcedPair: the holder request H, the victim request V and the NSQ_VERIF_WAIT spec that pins the
+// schedule, for the state f (counters settled).  at = where H stays while it holds the lock.
+func forcedPair(r *lib.Rand, f *fstate, hk, vk, at string) (h, v Op, wait string, ok bool) {
+	c0 := f.c
+	ts := f.names()
+	t := ts[r.Intn(len(ts))]
+	hs, hp := 1, 0 // H's Notify goroutines; persists H performs inside the request
+	switch hk {
+	case "ct":
+		n := f.freshTopic(r)
+		if n == "" {
+			return
+		}
+		h = Op{Kind: "ct", Topic: n}
+	case "cc":
+		c := f.freshChan(r, t)
+		if c == "" {
+			return
+		}
+		h = Op{Kind: "cc", Topic: t, Channel: c}
+	case "dc":
+		cs := f.chanNames(t, false)
+		if len(cs) == 0 {
+			return
+		}
+		h = Op{Kind: "dc", Topic: t, Channel: cs[r.Intn(len(cs))]}
+		hp = 1
+	case "dt":
+		if len(ts) < 2 {
+			return
+		}
+		h = Op{Kind: "dt", Topic: t}
+		hs, hp = 1+len(f.topics[t].chans), 1
+	}
+	f.apply(h)
+	ts = f.names()
+	t = ts[r.Intn(len(ts))]
+	var vpoint, signal string
+	var vhit, sig int
+	switch vk {
+	case "cc":
+		c := f.freshChan(r, t)
+		if c == "" {
+			return
+		}
+		v = Op{Kind: "cc", Topic: t, Channel: c}
+		vpoint, vhit = "getchannel:before-lock", f.c.getch+1
+		signal, sig = "lookup:notify-received", c0.spawn+hs+1
+	case "pt", "ut":
+		// the flip that changes the flag (a stale document then differs from the acknowledged state)
+		v = Op{Kind: "pt", Topic: t}
+		if f.topics[t].paused {
+			v.Kind = "ut"
+		}
+		vpoint, vhit = "pause:before-flip", c0.flip+1
+		signal, sig = "pause:before-lock", c0.plock+1
+	case "pc", "uc":
+		cs := f.chanNames(t, false)
+		if len(cs) == 0 {
+			return
+		}
+		v = Op{Kind: "pc", Topic: t, Channel: cs[r.Intn(len(cs))]}
+		if f.topics[t].chans[v.Channel] {
+			v.Kind = "uc"
+		}
+		vpoint, vhit = "pause:before-flip", c0.flip+1
+		signal, sig = "pause:before-lock", c0.plock+1
+	}
+	f.apply(v)
+	n := c0.persist + hp + 1 // the persist of H's first Notify goroutine to get the lock
+	var parts []string
+	for j := 1; j <= hs; j++ {
+		parts = append(parts, fmt.Sprintf("notify:before-send|%d|%s|%d", c0.spawn+j, vpoint, vhit))
+	}
+	parts = append(parts, fmt.Sprintf("%s|%d|persist:after-tmp-write|%d", vpoint, vhit, n), fmt.Sprintf("%s|%d|%s|%d", at, n, signal, sig))
+	return h, v, strings.Join(parts, ","), true
+}
+
+// forcedIdleHolder: a creation W whose Notify goroutine reaches the lock while GetTopic, creating an
+// ephemeral topic, sits inside it (a holder that writes nothing)
+func forcedIdleHolder(r *lib.Rand, f *fstate, wk string) (w, e Op, wait string, ok bool) {
+	c0 := f.c
+	ts := f.names()
+	t := ts[r.Intn(len(ts))]
+	switch wk {
+	case "ct":
+		n := f.freshTopic(r)
+		if n == "" {
+			return
+		}
+		w = Op{Kind: "ct", Topic: n}
+	default:
+		c := f.freshChan(r, t)
+		if c == "" {
+			return
+		}
+		w = Op{Kind: "cc", Topic: t, Channel: c}
+	}
+	f.apply(w)
+	e = Op{Kind: "ct", Topic: []string{"e#ephemeral", "e2#ephemeral"}[r.Intn(2)]}
+	f.apply(e)
+	wait = fmt.Sprintf("notify:before-send|%d|notify:spawn|%d,notify:spawn|%d|lookup:notify-received|%d", c0.spawn+1, c0.spawn+2, c0.spawn+2, c0.spawn+1)
+	return w, e, wait, true
+}
+
+var (
+	forcedHolders = []string{"ct", "cc", "dc", "dt"}
+	forcedVictims = []string{"cc", "cc", "cc", "pt", "ut", "pc", "uc"}
+	forcedAt      = []string{"persist:after-tmp-write", "persist:after-fsync", "persist:after-rename"}
+)
+
+// mkForced: prefix requests (idle after each), optionally a kill + restart, then the forced pair
+func mkForced(r *lib.Rand, name string, nprefix int, restart bool, tmpl, hk, vk, at string, kill Kill) (Scenario, bool) {
+	f := &fstate{topics: map[string]*ftopic{}, c: fctr{persist: 1}}
+	var ops []Op
+	add := func(o Op) { f.apply(o); ops = append(ops, o, Op{Kind: "idle"}) }
+	add(Op{Kind: "ct", Topic: "t0"})
+	for i := 0; i < nprefix; i++ {
+		if o, ok := f.prefixOp(r); ok {
+			add(o)
+		}
+	}
+	sc := Scenario{Name: name, Kind: "churn"}
+	if restart {
+		sc.Cycles = append(sc.Cycles, Cycle{Ops: ops, Kill: Kill{Mode: "idle"}})
+		f.restart()
+		ops = []Op{{Kind: "idle"}}
+	}
+	var a, b Op
+	var wait string
+	var ok bool
+	if tmpl == "idle-holder" {
+		a, b, wait, ok = forcedIdleHolder(r, f, hk)
+	} else {
+		a, b, wait, ok = forcedPair(r, f, hk, vk, at)
+	}
+	if !ok {
+		return sc, false
+	}
+	ops = append(ops, a, b)
+	if kill.Mode == "idle" {
+		ops = append(ops, Op{Kind: "idle"})
+	}
+	sc.Cycles = append(sc.Cycles, Cycle{Ops: ops, Kill: kill, Wait: wait}, Cycle{Kill: Kill{Mode: "idle"}})
+	return sc, true
+}
+
+func genForced(r *lib.Rand, k int) Scenario {
+	for {
+		tmpl, hk, vk := "pair", forcedHolders[r.Intn(len(forcedHolders))], forcedVictims[r.Intn(len(forcedVictims))]
+		if r.Chance(15) {
+			tmpl, hk = "idle-holder", []string{"ct", "cc"}[r.Intn(2)]
+		}
+		kill := Kill{Mode: "idle"}
+		if r.Chance(35) {
+			kill = Kill{Mode: "now"}
+		}
+		if sc, ok := mkForced(r, fmt.Sprintf("forced-%d", k), r.Intn(6), r.Chance(30), tmpl, hk, vk, forcedAt[r.Intn(len(forcedAt))], kill); ok {
+			return sc
+		}
+	}
+}
+
+// the hooks the forced pairs need (a tree under test may predate them: every wait would then run
+// into the hook's 10 s cap, so the scenarios are skipped and the fact is reported)
+var forcedHookNames = []string{"getchannel:before-lock", "lookup:notify-received", "pause:before-flip", "pause:before-lock"}
+
+func forcedHooksPresent(bin, scratch string) bool {
+	dir, err := os.MkdirTemp(scratch, "meta-")
+	if err != nil {
+		return false
+	}
+	defer os.RemoveAll(dir)
+	d, err := startDaemonW(bin, dir, "", nil, "", false, "probe", true)
+	if err != nil {
+		return false
+	}
+	defer d.sigkill()
+	if _, ok := d.waitServing(); !ok {
+		return false
+	}
+	for _, o := range []Op{{Kind: "ct", Topic: "t"}, {Kind: "cc", Topic: "t", Channel: "c"}, {Kind: "pc", Topic: "t", Channel: "c"}} {
+		if st, err := doOp(d, o); err != nil || st != 200 {
+			return false
+		}
+	}
+	if _, ok := d.waitIdle(); !ok {
+		return false
+	}
+	h, err := d.hits()
+	if err != nil {
+		return false
+	}
+	for _, n := range forcedHookNames {
+		if h[n] == 0 {
+			return false
+		}
+	}
+	return true
+}
+func needsForcedHooks(sc Scenario) bool {
+	for _, cy := range sc.Cycles {
+		for _, n := range forcedHookNames {
+			if strings.Contains(cy.Wait, n) {
+				return true
+			}
+		}
+	}
+	return false
+}
+
 func genLoad(r *lib.Rand, k int) Scenario {
 	sc := Scenario{Name: fmt.Sprintf("load-%d", k), Kind: "load", Present: true, Cut: -1}
 	names := append(append([]string{}, topicPool...), badNames...)
@@ -1549,6 +1989,38 @@ func fixedScenarios() []Scenario {
 		}
 		out = append(out, Scenario{Name: "fixed-delete-under-stale-persist-" + v.name, Kind: "churn", Cycles: []Cycle{
 			{Ops: ops, Kill: v.kill, Wait: fmt.Sprintf("delete-channel:before-remove|1|%s|%d,%s|%d|delete-channel:after-remove|1", v.at, n, v.at, n)}, obsCycle}})
+	}
+	// the creation / pause analogue (see forcedPair): every holder kind x every victim kind at least once per run
+	for i, v := range []struct {
+		tmpl, hk, vk, at string
+		np               int
+		restart          bool
+		kill             Kill
+	}{
+		{"pair", "cc", "cc", forcedAt[0], 0, false, idle}, {"pair", "ct", "cc", forcedAt[1], 0, false, idle},
+		{"pair", "dc", "cc", forcedAt[2], 3, false, idle}, {"pair", "dt", "cc", forcedAt[0], 4, false, idle},
+		{"pair", "cc", "cc", forcedAt[0], 3, true, idle}, {"pair", "cc", "cc", forcedAt[1], 2, false, Kill{Mode: "now"}},
+		{"idle-holder", "ct", "", "", 0, false, idle}, {"idle-holder", "cc", "", "", 2, true, idle},
+		{"pair", "cc", "pc", forcedAt[0], 1, false, Kill{Mode: "now"}}, {"pair", "ct", "pt", forcedAt[0], 0, false, Kill{Mode: "now"}},
+		{"pair", "cc", "uc", forcedAt[1], 3, true, idle}, {"pair", "dc", "ut", forcedAt[2], 3, false, Kill{Mode: "now"}},
+		{"pair", "dt", "pc", forcedAt[0], 5, false, Kill{Mode: "now"}},
+	} {
+		name := fmt.Sprintf("fixed-busy-lock-holder-%s-victim-%s", v.hk, v.vk)
+		if v.tmpl == "idle-holder" {
+			name = "fixed-busy-lock-holder-ephemeral-topic-creation-victim-" + v.hk
+		}
+		if v.restart {
+			name += "-after-restart"
+		}
+		if v.kill.Mode == "now" {
+			name += "-now"
+		}
+		for seed := uint64(1); seed < 200; seed++ {
+			if sc, ok := mkForced(lib.NewRand(seed*1000+uint64(i)), name, v.np, v.restart, v.tmpl, v.hk, v.vk, v.at, v.kill); ok {
+				out = append(out, sc)
+				break
+			}
+		}
 	}
 	for _, ph := range lockPhases {
 		out = append(out, Scenario{Name: "fixed-lock-" + ph, Kind: "lock", Phase: ph})
@@ -1835,6 +2307,7 @@ func main() {
 	out := flag.String("out", "", "output jsonl")
 	replay := flag.String("replay", "", "replay file (inputs)")
 	par := flag.Int("par", 6, "parallel scenarios")
+	nforced := flag.Int("nforced", 12, "number of generated forced busy-lock schedules")
 	stracePct := flag.Int("strace-pct", 15, "percentage of generated churn scenarios run under strace")
 	flag.Parse()
 	bin := filepath.Join(os.Getenv("VERIF_BIN_DIR"), "nsqd")
@@ -1867,6 +2340,25 @@ func main() {
 		for k := 0; k < *nfault; k++ {
 			scs = append(scs, genFault(r, k))
 		}
+		for k := 0; k < *nforced; k++ {
+			scs = append(scs, genForced(r, k))
+		}
+	}
+	needed := 0
+	for _, sc := range scs {
+		if needsForcedHooks(sc) {
+			needed++
+		}
+	}
+	if needed > 0 && !forcedHooksPresent(bin, scratch) {
+		var keep []Scenario
+		for _, sc := range scs {
+			if !needsForcedHooks(sc) {
+				keep = append(keep, sc)
+			}
+		}
+		scs = keep
+		o.Stat("forced_busy_lock_scenarios_skipped_hooks_missing", needed)
 	}
 	sem := make(chan struct{}, *par)
 	var wg sync.WaitGroup
@@ -1913,6 +2405,7 @@ func main() {
 	o.Stat("daemon_starts", atomic.LoadInt64(&nStarts))
 	o.Stat("write_fault_cases_not_armed", atomic.LoadInt64(&nFaultNotArmed))
 	o.Stat("lock_cases_inconclusive", atomic.LoadInt64(&nLockInconclusive))
+	o.Stat("forced_schedule_waits_expired", atomic.LoadInt64(&nWaitExpired))
 	o.Stat("kills", gstats.kills)
 	o.Stat("idle_points", gstats.idles)
 	o.Stat("directory_samples", gstats.samples)
